@@ -53,8 +53,9 @@ type Watch struct {
 	Calls    int
 	Tomb     string // set if a tombstone was ever passed to the callback
 	cancel   context.CancelFunc
-	Epoch    int // node incarnation it was registered on
-	ChangeAt int // node change counter at registration
+	Epoch    int           // node incarnation it was registered on
+	ChangeAt int           // node change counter at registration
+	slow     time.Duration // how long the callback takes
 	// scratch for harnesses that poll the watcher
 	SeenValue string
 	SeenCalls int
@@ -92,6 +93,7 @@ func NewCluster(b *vx.B, n int, cfg func(*memberlist.KVConfig)) *Cluster {
 	}
 	b.Cleanup(func() {
 		for _, w := range c.Watches {
+			w.SetSlow(0)
 			w.cancel()
 		}
 		for _, nd := range c.Nodes {
@@ -99,7 +101,7 @@ func NewCluster(b *vx.B, n int, cfg func(*memberlist.KVConfig)) *Cluster {
 				nd.StopAsync()
 			}
 		}
-		time.Sleep(time.Second)
+		time.Sleep(4 * time.Second) // past the slowest watcher callback still running
 		vx.Wait()
 	})
 	return c
@@ -349,6 +351,11 @@ func (c *Cluster) AddWatch(i int, key string, prefix bool, useRingClient bool) *
 		cl = c.PRingC[i]
 	}
 	rec := func(k string, v interface{}) bool {
+		defer func() {
+			if d := w.Slow(); d > 0 {
+				time.Sleep(d)
+			}
+		}()
 		w.mu.Lock()
 		defer w.mu.Unlock()
 		w.Calls++
@@ -376,6 +383,12 @@ func (c *Cluster) AddWatch(i int, key string, prefix bool, useRingClient bool) *
 	c.Watches = append(c.Watches, w)
 	return w
 }
+
+// SetSlow makes every further callback of the watcher take d.
+func (w *Watch) SetSlow(d time.Duration) { w.mu.Lock(); w.slow = d; w.mu.Unlock() }
+
+// Slow returns the callback duration.
+func (w *Watch) Slow() time.Duration { w.mu.Lock(); defer w.mu.Unlock(); return w.slow }
 
 // Snapshot returns what the watcher saw last.
 func (w *Watch) Snapshot() (last map[string]string, calls int, tomb string) {
